@@ -29,12 +29,15 @@ STUBS = ["MDAnalysis AnalysisFromFunction -> direct loop over stub frames; cente
          "sqrt -> fresh variable with monotonicity axioms; non-constant division purified (q*den = num)"]
 ASSUMPTIONS = ["direction vectors have unit norm, the centre of mass is not the origin", "float modelled by the reals", "radii strictly increasing, positive"]
 OUTSIDE = ["the rotation index b and therefore the round trip pseudotrajectory -> 0,1,2,...", "n_t = 1", "sizes beyond the bound"]
+FUNCTIONS += ["AssignmentTool.__init__ (grid decomposition, molecule selection, centring transformation, stop) -- two tools in one process",
+              "AssignmentTool._determine_second_molecule", "molgri.space.fullgrid.from_full_array_to_o_b_t (as called by the tool)"]
 
 
 def bounds(tier):
     return {"radial": {"n_t": [2, 3, 4] if tier == "quick" else [2, 3, 4, 5, 6], "include_outliers": [False, True]},
             "direction": {"n_o": [2, 3] if tier == "quick" else [2, 3, 4], "metric": ["euclidean", "cos"]},
-            "composition": {"n_t": 3, "n_o": 2, "n_b": [1, 3], "frames": "1-2"}}
+            "composition": {"n_t": 3, "n_o": 2, "n_b": [1, 3], "frames": "1-2"},
+            "tools_history": {"two AssignmentTool objects in one process": "n_t = 2, n_o = 1, n_b in {1, 2} (thorough: + n_o = 2, n_t = 3); radii of both grids symbolic"}}
 
 
 def shapes(tier, seed):
@@ -45,6 +48,11 @@ def shapes(tier, seed):
     for n_o in ((2, 3) if tier == "quick" else (2, 3, 4)):
         for cart in (True, False):
             out.append({"kind": "direction", "n_o": n_o, "cartesian": cart})
+    out.append({"kind": "tools", "n_t": 2, "n_o": 1, "n_b": 1})
+    out.append({"kind": "tools", "n_t": 2, "n_o": 1, "n_b": 2})
+    if tier == "thorough":
+        out.append({"kind": "tools", "n_t": 2, "n_o": 2, "n_b": 1})
+        out.append({"kind": "tools", "n_t": 3, "n_o": 1, "n_b": 1})
     for n_b in (1, 3):
         for inc in (False, True):
             # n_t != n_o != n_b so that a swapped stride is visible
@@ -61,6 +69,8 @@ class AG:
 
 
 def run_shape(shape):
+    if shape["kind"] == "tools":
+        return run_tools(shape)
     return {"radial": run_radial, "direction": run_direction, "compose": run_compose}[shape["kind"]](shape)
 
 
@@ -310,6 +320,141 @@ class PdStub:
     DataFrame = NoDescribe
 
 
+class TransStub:
+    """MDAnalysis.transformations: translate(v) is only handed to trajectory.add_transformations (recorded, not applied)"""
+    @staticmethod
+    def translate(v):
+        return ("translate", v)
+
+
+def _grid_rows(radii, O, Q):
+    """rows of a full grid array in the package's order (position-major, rotation-minor); generic over floats / symbolic scalars"""
+    rows = []
+    for rk in radii:
+        for o in O:
+            for q in Q:
+                rows.append([rk * float(c) for c in o] + [float(c) for c in q])
+    return rows
+
+
+def _tools_history(T, mk_universe, arrA, arrB, probe_ag):
+    """two AssignmentTool objects in one process, built by the REAL __init__ (grid decomposition, molecule selection, centring
+    transformation, stop): first a tool for another grid, then the tool under test; the second must work with ITS OWN grid"""
+    uA, refA = mk_universe()
+    toolA = T.AssignmentTool(arrA, uA, refA)
+    toolA._t_assignment_function(probe_ag)            # the first tool is used, too
+    uB, refB = mk_universe()
+    toolB = T.AssignmentTool(arrB, uB, refB, include_outliers=False)
+    return {"t": toolB.t_array, "o": toolB.o_array, "b": toolB.b_array, "stop": toolB.stop, "sel": toolB.second_molecule_selection,
+            "t_index": toolB._t_assignment_function(probe_ag)}
+
+
+TOOLS_O = {1: [[0.0, 0.0, 1.0]], 2: [[0.0, 0.0, 1.0], [0.0, 0.0, -1.0]]}
+TOOLS_Q = {1: [[0.0, 0.0, 0.0, 1.0]], 2: [[0.0, 0.0, 0.0, 1.0], [0.0, 1.0, 0.0, 0.0]]}
+
+
+def run_tools(shape):
+    """Two assignment tools in one process (histories are C11's 'any rigid placement ... assigned cell index' seen from a user who analyses
+    two grids in one script).  The two grids share directions and rotations and have DIFFERENT symbolic radii (rA, rB: positive, increasing
+    by more than 1e-6 A, otherwise arbitrary -- in particular they may coincide in any checksum a cache might use).  The second tool must
+    hold the decomposition of its own grid and assign the probe placement (0, 0, d), d symbolic, to the shell of ITS radii."""
+    import molgri.molecules.transitions as T
+    import molgri.space.fullgrid as F
+    import molgri.space.utils as U
+    from symx.core import sym_float
+    from symx.models import FMemUniverse, FTopology
+    n_t, n_o, n_b = shape["n_t"], shape["n_o"], shape["n_b"]
+    rA = [z3.Real(f"ra{k}") for k in range(n_t)]
+    rB = [z3.Real(f"rb{k}") for k in range(n_t)]
+    d = z3.Real("d")
+    eng = Engine()
+    eng.decide_timeout_ms = 3000
+    prover = Prover(timeout_ms=20000, budget_s=400)
+    acc = Acc(shape)
+    gap = z3.RealVal("1/1000000")
+    pre = [d > 0]
+    for r in (rA, rB):
+        pre += [r[0] > gap] + [r[k + 1] - r[k] > gap for k in range(n_t - 1)]
+        for x in r:
+            eng.declare_sign(x, "+")
+    eng.declare_sign(d, "+")
+    eng.assume_global(*pre)
+    proxy = NPProxy()
+    O, Q = TOOLS_O[n_o], TOOLS_Q[n_b]
+
+    def mk_universe():
+        top = FTopology([12.0, 1.0, 16.0], ["C", "H", "O"])       # molecule 1: one atom, molecule 2: two atoms
+        frames = sarr([[[0.0, 0.0, 0.0], [0.0, 0.0, 1.0 + f], [0.0, 0.5, 1.5 + f]] for f in range(2)])
+        return FMemUniverse(top, frames), FMemUniverse(FTopology([1.0, 16.0], ["H", "O"]), sarr([[[0.0, 0.0, 0.0], [0.0, 0.5, 0.5]]]))
+
+    def body():
+        with bound(T, np=proxy, print=noprint, cdist=fcdist, AnalysisFromFunction=FakeAnalysis, pd=PdStub, trans=TransStub, float=sym_float), \
+                bound(F, np=proxy, print=noprint), bound(U, np=proxy):
+            arrA = sarr(_grid_rows([SR(x) for x in rA], O, Q))
+            arrB = sarr(_grid_rows([SR(x) for x in rB], O, Q))
+            return _tools_history(T, mk_universe, arrA, arrB, AG(sarr([0.0, 0.0, SR(d)])))
+
+    Rb, _, _, _, _ = position_spec(1, n_t, [z3.RealVal(1)], {}, {}, rB, zero=z3.RealVal(0))
+    for path in eng.explore(body):
+        acc.begin(prover, path)
+        cexinfo = {"model": _path_model(path)}
+        if path.kind == "exc":
+            acc.structural("no_exception", False, detail=repr(path.value) + (path.tb or "")[-700:], cex=dict(cexinfo, kind="exception", exc=type(path.value).__name__))
+            continue
+        if acc.reachable is not True:
+            acc.reach(prover.satisfiable(path.premises))
+        o = path.value
+        ok = tuple(np.shape(o["t"])) == (n_t,) and tuple(np.shape(o["o"])) == (n_o, 3) and tuple(np.shape(o["b"])) == (n_b, 4) and o["stop"] == 2 \
+            and str(o["sel"]).split() == ["bynum", "2:4"]
+        acc.structural("tool_holds_grids_of_the_right_sizes", ok, detail=(np.shape(o["t"]), np.shape(o["o"]), np.shape(o["b"]), o["stop"], o["sel"]), cex=cexinfo)
+        if not ok:
+            continue
+        tol = z3.RealVal("1/10000000")      # the decomposition rounds to 8 decimals
+        claims = [(f"tool_radii_are_its_own_grid[{k}]", z3.And(z(o["t"][k]) - rB[k] <= tol, rB[k] - z(o["t"][k]) <= tol)) for k in range(n_t)]
+        claims += [(f"tool_directions_are_its_own_grid[{i},{c}]", z3.And(z(o["o"][i, c]) - O[i][c] <= tol, O[i][c] - z(o["o"][i, c]) <= tol)) for i in range(n_o) for c in range(3)]
+        claims += [(f"tool_rotations_are_its_own_grid[{i},{c}]", z3.And(z(o["b"][i, c]) - Q[i][c] <= tol, Q[i][c] - z(o["b"][i, c]) <= tol)) for i in range(n_b) for c in range(4)]
+        v = o["t_index"]
+        margin = z3.RealVal("1/1000")        # the probe keeps clear of the shell boundaries (rounded radii move them by < 1e-7)
+        if isinstance(v, float) and math.isnan(v):
+            claims.append(("probe_beyond_the_outer_boundary_of_its_own_grid", d > Rb[-1] - margin))
+        else:
+            t = int(v)
+            lo = Rb[t - 1] if t > 0 else z3.RealVal(0)
+            claims.append(("probe_assigned_to_the_shell_of_its_own_grid", z3.And(d >= lo - margin, d <= Rb[t] + margin)))
+        acc.add(prover.prove_all(path.premises, claims), make_cex=lambda r_: {})
+    return acc.result(eng.stats, prover.stats)
+
+
+def _path_model(path):
+    s_ = z3.Solver()
+    s_.set("timeout", 5000)
+    s_.add(*path.premises)
+    # prefer a model in which every rounding is exact: it carries over to the floats of the replay
+    from symx.core import uf_rint
+    nice = []
+    seen = set()
+
+    def walk(t):
+        if t.get_id() in seen:
+            return
+        seen.add(t.get_id())
+        if z3.is_app(t):
+            if t.decl().name() == uf_rint().name() and t.num_args() == 1:
+                nice.append(t == t.arg(0))
+            for ch in t.children():
+                walk(ch)
+    for p_ in path.premises:
+        walk(p_)
+    s_.push()
+    s_.add(*nice)
+    if s_.check() != z3.sat:
+        s_.pop()
+        if s_.check() != z3.sat:
+            return {}
+    from symx.prove import model_to_dict
+    return {k: (str(v) if not isinstance(v, bool) else v) for k, v in model_to_dict(s_.model()).items()}
+
+
 def run_compose(shape):
     import molgri.molecules.transitions as T
     import molgri.space.utils as U
@@ -382,10 +527,68 @@ def run_compose(shape):
 
 
 # ------------------------------------------------------------------------------------------ replay on the real code
+class RealAG:
+    def __init__(self, com):
+        self.com = np.asarray(com, dtype=float)
+
+    def center_of_mass(self, **k):
+        return self.com.copy()
+
+
+def replay_tools(cex):
+    """the same two-tool history on the real MDAnalysis / scipy / numpy with the model's radii"""
+    import contextlib, io, warnings
+    import MDAnalysis as mda
+    from MDAnalysis.coordinates.memory import MemoryReader
+    import molgri.molecules.transitions as T
+    from symx.models import real_universe
+    s = cex["shape"]
+    model = cex.get("model", {}) or {}
+    n_t, n_o, n_b = s["n_t"], s["n_o"], s["n_b"]
+    rA = [fval(model, f"ra{k}", 1.0 + 0.7 * k) for k in range(n_t)]
+    rB = [fval(model, f"rb{k}", 1.3 + 0.9 * k) for k in range(n_t)]
+    d = fval(model, "d", 1.0)
+    if any(b - a <= 1e-6 for r in (rA, rB) for a, b in zip([0.0] + r, r)):
+        return {"reproduced": False, "detail": "model radii are not increasing by more than 1e-6"}
+    O, Q = TOOLS_O[n_o], TOOLS_Q[n_b]
+
+    def mk_universe():
+        base = real_universe([[0.0, 0.0, 0.0], [0.0, 0.0, 1.0], [0.0, 0.5, 1.5]], [12.0, 1.0, 16.0], ["C", "H", "O"])
+        frames = np.array([[[0.0, 0.0, 0.0], [0.0, 0.0, 1.0 + f], [0.0, 0.5, 1.5 + f]] for f in range(2)], dtype=np.float32)
+        return mda.Universe(base._topology, frames, format=MemoryReader), real_universe([[0.0, 0.0, 0.0], [0.0, 0.5, 0.5]], [1.0, 16.0], ["H", "O"])
+    try:
+        with warnings.catch_warnings(), contextlib.redirect_stdout(io.StringIO()):
+            warnings.simplefilter("ignore")
+            o = _tools_history(T, mk_universe, np.array(_grid_rows(rA, O, Q), dtype=float), np.array(_grid_rows(rB, O, Q), dtype=float), RealAG([0.0, 0.0, d]))
+    except Exception as e:  # noqa: BLE001
+        return {"reproduced": True, "detail": f"two tools in one process (radii {rA} then {rB}): raised {e!r}"}
+    bad = []
+    if np.shape(o["t"]) != (n_t,) or not np.allclose(np.asarray(o["t"], dtype=float), rB, atol=2e-7):
+        bad.append(f"second tool's radii {np.asarray(o['t'], dtype=float).tolist()} are not its grid's {rB} (first tool: {rA})")
+    if np.shape(o["o"]) != (n_o, 3) or not np.allclose(np.asarray(o["o"], dtype=float), O, atol=2e-7):
+        bad.append("second tool's directions are not its grid's")
+    if np.shape(o["b"]) != (n_b, 4) or not np.allclose(np.asarray(o["b"], dtype=float), Q, atol=2e-7):
+        bad.append("second tool's rotations are not its grid's")
+    if not bad:
+        Rb = [(rB[k] + rB[k + 1]) / 2 for k in range(n_t - 1)] + [rB[-1] + (rB[-1] - rB[-2]) / 2]
+        v = o["t_index"]
+        if isinstance(v, float) and math.isnan(v):
+            if d <= Rb[-1] - 1e-3:
+                bad.append(f"probe at distance {d} inside the outer boundary {Rb[-1]} is an outlier")
+        else:
+            t = int(v)
+            lo = Rb[t - 1] if t > 0 else 0.0
+            if not (lo - 1e-3 <= d <= Rb[t] + 1e-3):
+                bad.append(f"probe at distance {d} assigned to shell {t} = [{lo}, {Rb[t]}]")
+    return {"reproduced": bool(bad), "detail": str(bad[:3])}
+
+
 def replay(cex):
     import contextlib, io
     import molgri.molecules.transitions as T
     s = cex["shape"]
+    if s["kind"] == "tools":
+        return replay_tools(cex)
     model = cex.get("model", {}) or {}
     rng = np.random.default_rng(2)
     bad = []
